@@ -89,7 +89,7 @@ class NPX(engp.NPProxy):
         n = int(n); a = SymReal.lift(a); b = SymReal.lift(b)
         out = np.empty(n, dtype=object)
         for kk in range(n):
-            out[kk] = a if n == 1 else a + (b - a) * (float(kk) / float(n - 1)) if kk < n - 1 else b
+            out[kk] = a if n == 1 else (a + (b - a) * float(kk) / float(n - 1)) if kk < n - 1 else b      # exact rational kk/(n-1): multiply first, then divide
         return out.view(SA)
 
     def zeros(self, shape, *a, **k):
